@@ -148,8 +148,14 @@ def check_sums(case, ctx):
         if np.any(~np.isfinite(data) & (W > 0)):
             ctx.event('nonfinite_in_footprint')
             nontriv = True
-        _cmp(areas[k], o['area'], o['tol_area'], 'area_overlap',
-             f'position {k} ({x},{y}) {shape} {method}/{sub}')
+        try:
+            _cmp(areas[k], o['area'], o['tol_area'], 'area_overlap',
+                 f'position {k} ({x},{y}) {shape} {method}/{sub}')
+        except Violation as v:
+            v.info['kind'] = shape['kind']
+            if method == 'exact':
+                v.info['degenerate_contact'] = G.degenerate_contact(shape, x, y)
+            raise
         if o['amb_nonfinite']:
             ctx.event('ambiguous_nonfinite')
             continue
@@ -165,9 +171,7 @@ def check_sums(case, ctx):
         except Violation as v:
             v.info['kind'] = shape['kind']
             if method == 'exact' and shape['kind'] in ('ellipse', 'eannulus'):
-                from vf.props.c01 import _corner_on_boundary
-                v.info['corner_on_boundary'] = _corner_on_boundary(
-                    shape, x, y, masks[k].bbox)
+                v.info['degenerate_contact'] = G.degenerate_contact(shape, x, y)
             raise
         # table and get_values agree with do_photometry bit-for-bit
         require(bit_equal(np.float64(tbl['aperture_sum'][k]),
@@ -415,11 +419,11 @@ SUBCHECKS = [
     SubCheck('sums', sums_cases(), check_sums,
              'non-trivial = >=1 position whose box is clipped by an edge or '
              'misses the image, or a masked / non-finite pixel inside the '
-             'aperture footprint', quick=(16, 120), thorough=(16, 8000)),
+             'aperture footprint', quick=(16, 400), thorough=(16, 8000)),
     SubCheck('relations', relations_cases(), check_relations,
              'non-trivial = >=2 positions (many-at-once vs one-at-a-time)',
-             quick=(16, 40), thorough=(16, 3000)),
+             quick=(16, 100), thorough=(16, 3000)),
     SubCheck('sky', sky_cases(), check_sky,
              'non-trivial = array SkyCoord (several positions)',
-             quick=(8, 30), thorough=(16, 1500)),
+             quick=(8, 80), thorough=(16, 1500)),
 ]
